@@ -52,4 +52,34 @@ theorem templateCounts_sum (sc st : List Nat) (nt c : Nat) (hlen : st.length = s
     simp only [List.getD_eq_getElem?_getD, List.getElem?_eq_getElem hil, Option.getD_some]; exact List.getElem_mem hil
   exact Nat.lt_of_lt_of_le (hst _ hmem) (Nat.le_max_left _ _)
 
+theorem mem_distinctSorted (sc : List Nat) (v : Nat) : v ∈ distinctSorted sc ↔ v ∈ sc := by
+  unfold distinctSorted
+  rw [(unique_spec (sc.map Int.ofNat)).2 v]
+  simp only [List.mem_map]
+  constructor
+  · rintro ⟨w, hw, hwv⟩
+    have : w = v := Int.ofNat.inj hwv
+    exact this ▸ hw
+  · intro h; exact ⟨v, h, rfl⟩
+
+theorem spikesInClusters_all (sc : List Nat) :
+    spikesInClusters sc (distinctSorted sc) = List.range sc.length := by
+  unfold spikesInClusters
+  split
+  · rename_i h
+    simp only [Bool.or_eq_true, List.isEmpty_iff] at h
+    rcases h with h | h
+    · rw [h]; rfl
+    · cases sc with
+      | nil => rfl
+      | cons a t =>
+        exfalso
+        have : a ∈ distinctSorted (a :: t) := (mem_distinctSorted _ a).2 (by simp)
+        rw [h] at this; cases this
+  · apply List.filter_eq_self.mpr
+    intro i hi
+    have hil : i < sc.length := List.mem_range.mp hi
+    rw [List.contains_iff_mem, mem_distinctSorted]
+    simp only [List.getD_eq_getElem?_getD, List.getElem?_eq_getElem hil, Option.getD_some]
+    exact List.getElem_mem hil
 end PhyVerif.C07.Lemmas
